@@ -278,6 +278,9 @@ func verifRunA(c *verifsim.Ctx) {
 	cfg.spawn = c.Chance("cfg.spawn", 1, 3)
 	w.cfg = &cfg
 	switch c.Prop {
+	case "C02":
+		// restarts: pending delayed retries and schedules survive them
+		cfg.crash = c.Chance("cfg.restarts", 1, 3)
 	case "C03":
 		cfg.aborts = cfg.faults && c.Chance("cfg.aborts", 2, 3)
 	case "C04":
@@ -906,6 +909,22 @@ func (w *verifWorldA) spawnTasks(vt *verifTask) {
 		nt.WaitFor(t)
 		nvt.waits = append(nvt.waits, vt.id)
 		vt.halts = append(vt.halts, nt.ID())
+		if c.Chance("spawn-waits-on-finished-task", 1, 2) {
+			// a new task may also wait for a task of the change that finished long ago
+			var done []*verifTask
+			for _, x := range vc.tasks {
+				if xt := w.st.Task(x.id); xt != nil && x != nvt && x != vt && xt.Status() == state.DoneStatus {
+					done = append(done, x)
+				}
+			}
+			if len(done) > 0 {
+				x := done[c.Draw("spawn-finished-task", len(done))]
+				nt.WaitFor(w.st.Task(x.id))
+				nvt.waits = append(nvt.waits, x.id)
+				x.halts = append(x.halts, nt.ID())
+				c.Count("probe:new-task-waits-on-a-task-finished-earlier")
+			}
+		}
 		if prev != nil && c.Chance("spawn-chain", 1, 2) {
 			nt.WaitFor(prev)
 			nvt.waits = append(nvt.waits, prevVT.id)
@@ -1000,6 +1019,19 @@ func (w *verifWorldA) observe() {
 				}
 			}
 			c.Count("probe:durable-equals-memory-checked")
+		}
+	}
+
+	// a task that asked to wait for a reboot stops waiting when an abort moves it on
+	for _, t := range w.st.Tasks() {
+		if vt := w.tasks[t.ID()]; vt != nil && vt.inWait {
+			switch t.Status() {
+			case state.UndoStatus, state.UndoingStatus, state.UndoneStatus, state.HoldStatus, state.ErrorStatus, state.AbortStatus:
+				if !(vt.undoWaited && t.Status() == state.UndoingStatus) {
+					vt.inWait = false
+					c.Count("probe:wait-ended-by-an-abort")
+				}
+			}
 		}
 	}
 
@@ -1301,7 +1333,10 @@ func (w *verifWorldA) crash() {
 			TaskIDs []string `json:"task-ids"`
 		} `json:"changes"`
 		Tasks map[string]struct {
-			Status int `json:"status"`
+			Status    int       `json:"status"`
+			AtTime    time.Time `json:"at-time"`
+			WaitTasks []string  `json:"wait-tasks"`
+			HaltTasks []string  `json:"halt-tasks"`
 		} `json:"tasks"`
 	}
 	if err := json.Unmarshal(payload, &raw); err != nil {
@@ -1439,6 +1474,8 @@ func (w *verifWorldA) crash() {
 				continue
 			}
 			s := t.Status()
+			// a wait that was asked for is pending only if the state resumed from says so
+			vt.inWait = s == state.WaitStatus
 			if !lostSome && c.Active("C04") {
 				// finished work must not be rolled back to "not yet done"
 				if w.ackDone[vt.id+"/Done"] && (s == state.DoStatus || s == state.DoingStatus) {
@@ -1446,6 +1483,36 @@ func (w *verifWorldA) crash() {
 				}
 				if w.ackDone[vt.id+"/Undone"] && s != state.UndoneStatus {
 					c.Violate("C04/finished-task-not-durable", "%s was Undone at a quiescent point before the stop (all writes completed), the state read back after the restart says %v", vt.label, s)
+				}
+			}
+			if c.Active("C04") {
+				ids := func(ts []*state.Task) string {
+					var out []string
+					for _, x := range ts {
+						out = append(out, x.ID())
+					}
+					sort.Slice(out, func(i, j int) bool { return verifNumLess(out[i], out[j]) })
+					return strings.Join(out, ",")
+				}
+				want := func(l []string) string {
+					out := append([]string(nil), l...)
+					sort.Slice(out, func(i, j int) bool { return verifNumLess(out[i], out[j]) })
+					return strings.Join(out, ",")
+				}
+				if got, exp := ids(t.WaitTasks()), want(vt.waits); got != exp {
+					c.Violate("C04/dependencies-changed-by-restart", "%s waits for [%s] after the restart, before it waited for [%s]", vt.label, got, exp)
+				}
+				if got, exp := ids(t.HaltTasks()), want(vt.halts); got != exp {
+					c.Violate("C04/dependencies-changed-by-restart", "after the restart the tasks waiting for %s are [%s], before they were [%s]", vt.label, got, exp)
+				}
+			}
+			if rt, ok := raw.Tasks[vt.id]; ok {
+				// what the checkpoint says about a pending (delayed) retry is what holds
+				// from now on: a retry request that was not durable is simply gone
+				if state.Status(rt.Status) == state.UndoingStatus {
+					vt.undoNotBefore = rt.AtTime
+				} else {
+					vt.notBefore = rt.AtTime
 				}
 			}
 			if rt, ok := raw.Tasks[vt.id]; ok && c.Active("C04") {
@@ -1590,6 +1657,25 @@ func (w *verifWorldA) finalOracles() {
 					if in {
 						M[vt.id] = true
 						changed = true
+					}
+				}
+			}
+			// ... and whatever is inside it was reached: every abort takes the lanes
+			// of each task it reaches along, so a completed task that can be undone
+			// does not stay Done inside the fixed point
+			// (judged on changes whose graph was fixed from the start: a task added
+			// later, say waiting on one that an earlier abort had been through, is
+			// not something that abort could have acted on)
+			grew := false
+			for _, vt := range vc.tasks {
+				if vt.dynamic {
+					grew = true
+				}
+			}
+			if !vc.userAborted && !grew {
+				for _, vt := range vc.tasks {
+					if M[vt.id] && vt.undoable && final[vt.id] == state.DoneStatus {
+						c.Violate("C01/not-undone:inside-the-reach-of-the-failure", "%s completed, can be undone and is within the reach of the failure (every lane it is in holds a failed or reached task, or it waits on one), but it is still Done; %s", vt.label, dump())
 					}
 				}
 			}
